@@ -141,9 +141,48 @@ theorem k_encodeDct (ref : Bool) (dct : Dct) (v : IVal) : K ref (encodeDct dct v
         · intro b; kk''
     · intro b; kk''
 
+/-! ### the compu-method helpers (`Model/CodecCompu.lean`; they only raise / odxraise / return) -/
+
+theorem k_methodP2I (ref : Bool) (m : Compu.Method) (p : Compu.Val) : K ref (methodP2I m p : EncM Compu.Val) := by
+  unfold methodP2I
+  cases m <;> simp only [] <;> kk
+
+theorem k_methodI2P (ref : Bool) (arith : Err) (m : Compu.Method) (i : Compu.Val) :
+    K ref (methodI2P arith m i : EncM (Option Compu.Val)) := by
+  unfold methodI2P
+  cases m <;> simp only [] <;> kk
+
+macro "kkc" : tactic => `(tactic| repeat (first
+    | exact k_methodP2I _ _ _ | exact k_methodI2P _ _ _ _ | k_step | split))
+
+theorem k_dopP2I (ref : Bool) (m : Compu.Method) (v : IVal) : K ref (dopP2I m v : EncM IVal) := by
+  unfold dopP2I
+  kkc
+
+theorem k_cmKeyValid (ref : Bool) (cm : CCompu) (ity pty : BaseType) (i : Int) : K ref (cmKeyValid cm ity pty i) := by
+  unfold cmKeyValid
+  kkc
+
+theorem k_keyValidCheck (ref : Bool) (dop : Dop) (i : Int) : K ref (keyValidCheck dop i) := by
+  unfold keyValidCheck
+  split
+  · exact k_cmKeyValid _ _ _ _ _
+  · exact k_raise _ _
+  · exact k_pure _ _
+
+theorem k_cmKeyRepr (ref : Bool) (cm : CCompu) (ity pty : BaseType) (v : Int) : K ref (cmKeyRepr cm ity pty v) := by
+  unfold cmKeyRepr
+  kkc
+
+theorem k_keyReprCheck (ref : Bool) (dop : Dop) (v : Int) : K ref (keyReprCheck dop v) := by
+  unfold keyReprCheck
+  split
+  · exact k_cmKeyRepr _ _ _ _ _
+  · exact k_pure _ _
+
 macro "kk3" : tactic => `(tactic| repeat (first
     | exact k_emplaceAtomic _ _ _ _ _ _ _ | exact k_encodeDct _ _ _
-    | exact k_emplaceBytes _ _ _
+    | exact k_emplaceBytes _ _ _ | exact k_keyValidCheck _ _ _ | exact k_keyReprCheck _ _ _
     | k_step | split | dsimp only))
 
 theorem k_encodeKeyPlaceholder (ref : Bool) (name : String) (bytePos bitPos : Option Nat) (dop : Dop) (pv : Option PVal) :
@@ -181,7 +220,8 @@ theorem k_encode_all (fuel : Nat) : ∀ (ref : Bool),
       cases d <;> unfold encodeDop <;>
         repeat (first
           | exact ihDop _ _ | (apply ihItems; assumption) | exact ihStatic _ _ _ _ | exact ihComp _ _ | exact ihParam _ _
-          | exact k_encodeDct _ _ _ | exact k_emplaceBytes _ _ _
+          | exact k_encodeDct _ _ _ | exact k_emplaceBytes _ _ _ | exact k_dopP2I _ _ _ | exact k_methodP2I _ _ _
+          | exact k_methodI2P _ _ _ _ | exact k_keyValidCheck _ _ _ | exact k_keyReprCheck _ _ _
           | k_step | split | dsimp only
           | (simp only [Nat.succ_eq_add_one, Nat.add_right_cancel_iff] at *; subst_vars))
     · intro item eop xs heop
@@ -211,7 +251,7 @@ theorem k_encode_all (fuel : Nat) : ∀ (ref : Bool),
     · intro ps
       unfold encodeKeyValues
       repeat (first
-          | exact ihDop _ _ | exact ihKeys _
+          | exact ihDop _ _ | exact ihKeys _ | exact k_keyReprCheck _ _ _ | exact k_keyValidCheck _ _ _
           | k_step | split | dsimp only
           | (simp only [Nat.succ_eq_add_one, Nat.add_right_cancel_iff] at *; subst_vars))
     · intro ps pv
